@@ -155,6 +155,67 @@ def gen_digest_cases(ck, rng, names):
     return cases
 
 
+def gen_history_cases(ck, rng, names):
+    """contexts with an arbitrary past: reset right after new, after some updates without a
+    final, after a final, twice in a row, ...; then a complete message whose digest / MAC is compared.
+    This is the quantifier of md_reset_fresh / hmac_reset_fresh ("whatever it held before")."""
+    cases = []
+    for name in names:
+        B, _ = DIGESTS[name]
+
+        def ln():
+            return rng.choice([0, 1, 3, B - 1, B, B + 1, rng.below(2 * B + 9), rng.below(24)])
+        for pre in ("h", "d"):
+            for i in range(sc(ck, 36, 400)):
+                if pre == "h":
+                    kl = rng.choice([0, 1, 4, B - 1, B, B + 1, 2 * B + 1, rng.below(2 * B + 2)])
+                    ops = ["h.new %s %s" % (name, vf.hexs(rng.bytes(kl)))]
+                else:
+                    ops = ["d.new " + name]
+                done = False
+                # the fixed shapes first, then random histories
+                shape = i % 9
+                if shape == 0:
+                    hist = ["reset"]
+                elif shape == 1:
+                    hist = ["upd", "reset"]
+                elif shape == 2:
+                    hist = ["upd", "upd", "reset", "reset"]
+                elif shape == 3:
+                    hist = ["upd", "fin", "reset", "reset"]
+                elif shape == 4:
+                    hist = ["reset", "upd", "fin", "reset", "upd", "reset"]
+                else:
+                    hist = [rng.choice(["upd", "upd", "reset", "reset", "fin"]) for _ in range(1 + rng.below(8))]
+                for h in hist:
+                    if h == "upd":
+                        if done:
+                            ops.append(pre + ".reset")
+                            done = False
+                        ops.append(pre + ".upd " + vf.hexs(rng.bytes(ln())))
+                    elif h == "fin":
+                        if done:
+                            ops.append(pre + ".reset")
+                        ops.append(pre + ".fin")
+                        done = True
+                    else:
+                        ops.append(pre + ".reset")
+                        done = False
+                # now a complete message on whatever the context has become
+                if done or rng.chance(1, 2):
+                    ops.append(pre + ".reset")
+                    fresh = True
+                else:
+                    fresh = hist[-1] == "reset"
+                msg = rng.bytes(ln())
+                ops += [pre + ".upd " + vf.hexs(c) for c in split_at(msg, [rng.below(len(msg) + 1) for _ in range(rng.below(3))])]
+                ops.append(pre + ".fin")
+                # and once more after the ordinary final -> reset
+                ops += [pre + ".reset", pre + ".upd " + vf.hexs(msg), pre + ".fin"]
+                cases.append(ops)
+    return cases
+
+
 def gen_hmac_cases(ck, rng, names):
     cases = []
     for name in names:
@@ -190,6 +251,10 @@ def gen_shake_cases(ck, rng):
                                                      rng.below(2 * r + 9), rng.below(20)]))
             if rng.chance(1, 8):
                 ops.append("sh.fin")
+            if rng.chance(1, 5):       # reset (sha3_*_reset) of a used context, then a complete hash
+                m2 = rng.bytes(rng.below(2 * r + 5))
+                ops += ["sh.new " + rng.choice([name, name, rng.choice(KECCAK_DIGESTS)]), "sh.upd " + vf.hexs(m2), "sh.fin",
+                        "sh.ext %d" % rng.below(r + 9)]
             if rng.chance(1, 10):      # absorbing after extraction: the code allows it, the model mirrors it
                 ops.append("sh.upd " + vf.hexs(rng.bytes(rng.below(20))))
                 ops.append("sh.ext %d" % rng.below(40))
@@ -228,6 +293,8 @@ def gen_sponge_cases(ck, rng):
                     ops.append("k.dec " + vf.hexs(rng.bytes(ln())))
                 elif x < 88:
                     ops.append("k.pad " + vf.hexs(rng.bytes(rng.choice([0, 1, 1, 1, 2, 3, r, r + 1, rng.below(r + 3)]))))
+                elif x < 90:
+                    ops.append("k.init %d" % rng.choice([cap, cap, rng.choice(caps)]))   # re-initialised mid-history
                 elif x < 92:
                     ops.append("k.rew")
                 elif x < 96:
@@ -428,7 +495,9 @@ def run(ck):
     ]
     ck.cov["rule"] = ("every message length 0..N per digest (quick N=2B+17, thorough N up to 2100) x "
                       "{all 2-splits for short messages, splits at 0,1,B-1,B,B+1,2B-1,2B,2B+1, random k-splits}, "
-                      "each case also re-hashes the message after reset; HMAC key lengths 0..2B+1; "
+                      "each case also re-hashes the message after reset; HMAC key lengths 0..2B+1; digest and HMAC contexts "
+                      "with arbitrary histories (reset after new / after updates without final / after final / twice) "
+                      "followed by a complete message; "
                       "all 199 Keccak capacities with random op sequences on three builds; ChaCha counters "
                       "around 2^32-1 and 2^64-1; distinct = distinct op sequence")
     ck.assumptions += ["libc malloc/memcpy", "C compiler (gcc, -O1, ASan+UBSan)",
@@ -449,21 +518,25 @@ def run(ck):
     hm_md = gen_hmac_cases(ck, rng, MD_DIGESTS)
     hm_k = gen_hmac_cases(ck, rng, KECCAK_DIGESTS)
     shk = gen_shake_cases(ck, rng)
+    hist_md = gen_history_cases(ck, rng, MD_DIGESTS)
+    hist_k = gen_history_cases(ck, rng, KECCAK_DIGESTS)
     spg = gen_sponge_cases(ck, rng)
     prm = gen_perm_cases(ck, rng)
     cha = gen_chacha_cases(ck, rng)
     refc = gen_ref_cases(ck, rng)
-    for cs in (md, kd, hm_md, hm_k, shk, spg, prm, cha):
+    for cs in (md, kd, hm_md, hm_k, shk, spg, prm, cha, hist_md, hist_k):
         op_histogram(ck, cs)
 
     par_compare(ck, h64, dcmd, md, "md-digests")
     par_compare(ck, h64, dcmd, hm_md, "hmac-md")
+    par_compare(ck, h64, dcmd, hist_md, "reset-histories-md")
+    par_compare(ck, h64, ref, hist_md[::2] + hist_k[::2], "reset-histories-reference-hashlib")
     par_compare(ck, h64, dcmd, cha, "chacha")
-    keccak_all = kd + hm_k + shk + spg + prm
+    keccak_all = kd + hm_k + hist_k + shk + spg + prm
     par_compare(ck, h64, dcmd, keccak_all, "keccak-64bit")
     # the other two code paths: everything at quick volume; at thorough volume every sponge / prng /
     # permutation case and half of the (much more numerous) digest and HMAC cases
-    k_other = keccak_all if qk(ck) else (kd[::2] + hm_k[::2] + shk + spg + prm)
+    k_other = keccak_all if qk(ck) else (kd[::2] + hm_k[::2] + hist_k + shk + spg + prm)
     par_compare(ck, hsmall, dcmd, k_other, "keccak-small")
     par_compare(ck, h32, dcmd, k_other, "keccak-32bit")
     par_compare(ck, h64, ref, refc, "reference-hashlib")
